@@ -203,6 +203,13 @@ def mgr_state(res):
             if w and w.get("acquirer_alive") is False:
                 extra = "(held-by-dead-process)"
             blocked.append("manager-in:%s/%s%s" % (inner_loky(t["where"]), t["what"], extra))
+    # a task of the root may be waiting for a nested executor that hangs inside a worker
+    nested = []
+    for t in (res.sched.snapshot or []):
+        if t["pid"] != 100 and t["role"] == "manager" and t["alive"]:
+            w = t.get("waits_for")
+            extra = "(held-by-dead-process)" if w and w.get("acquirer_alive") is False else ""
+            nested.append("nested-manager-in:%s/%s%s" % (inner_loky(t["where"]), t["what"], extra))
     fdied = sorted(set(d for d in died if d.startswith("feeder")))
     ctx = []
     if blocked:
@@ -242,7 +249,7 @@ def mgr_state(res):
             if t["tid"] in res.sched.livelock_pollers:
                 pol.append("%s@%s" % (t["role"] if t["pid"] != 100 else ("root-" + ("main" if t["role"] == "main" else t["role"].rstrip("0123456789"))), inner_loky(t["where"])))
         blocked.append("pollers:" + "+".join(sorted(set(pol))))
-    return ",".join(sorted(set(blocked)) + fdied + ctx) or "no-manager"
+    return ",".join(sorted(set(blocked)) + fdied + ctx + sorted(set(nested))) or "no-manager"
 
 
 def inner_loky(where):
